@@ -47,6 +47,12 @@ def run(pid, tier, seed):
     for bits in (3, 4, 5):
       for mv in (None, 2, 0):
         cfgs.append({"fam": "eq", "kind": kind, "alpha": "None", "bits": bits, "hasmv": mv is not None, "mvk": mv or 0})
+  for bits in (3, 4, 5):
+    for mv in (None, 2, 0):
+      cfgs.append({"fam": "eq", "kind": "relu_po2_leaky", "alpha": "None", "bits": bits, "hasmv": mv is not None, "mvk": mv or 0})
+  for u in (1, 2, 8):                       # the iteration count of the ternary scale is an option of both classes
+    for alpha in ("auto", "auto_po2"):
+      cfgs.append({"fam": "eq", "kind": "stochastic_ternary", "alpha": alpha, "unrolls": u})
   for kind in ("binary_sr", "stochastic_binary", "stochastic_ternary", "ternary_sr"):
     for alpha in ("None", "1.0", "auto", "auto_po2"):
       if kind == "ternary_sr" and not alpha.startswith("auto"):
